@@ -240,13 +240,13 @@ func (g *gctx) namedOverride(tc TC, d *Decl, variant string, local bool) {
 
 var customVariant = map[TC]string{Eq: "fold", Ord: "rev", Hashable: "fold", Monoid: "swap"}
 
-func (c *Case) genTp(r *rand.Rand) *Pkg {
+func (c *Case) genTp(r *rand.Rand, forceSimple bool) *Pkg {
 	p := &Pkg{Name: "tp"}
 	g := &gctx{r: r, p: p, c: c}
-	if chance(r, 75) {
+	if chance(r, 75) || forceSimple {
 		d := g.add(g.simpleStruct("Money", true))
 		for _, tc := range []TC{Eq, Ord, Hashable, Monoid} {
-			if chance(r, 55) {
+			if chance(r, 55) || (forceSimple && tc == Eq) {
 				g.namedOverride(tc, d, customVariant[tc], false)
 			}
 		}
@@ -283,7 +283,7 @@ func (c *Case) genTp(r *rand.Rand) *Pkg {
 	return p
 }
 
-func (c *Case) genWp(r *rand.Rand, tp *Pkg) *Pkg {
+func (c *Case) genWp(r *rand.Rand, tp *Pkg, must string, forceOverride bool) *Pkg {
 	p := &Pkg{Name: "wp"}
 	g := &gctx{r: r, p: p, c: c}
 	if tp != nil {
@@ -303,7 +303,11 @@ func (c *Case) genWp(r *rand.Rand, tp *Pkg) *Pkg {
 			c.Shapes = append(c.Shapes, "override."+tcName[tc]+pub(b))
 		}
 	}
-	leaf(40, Eq, "string", "fold")
+	if forceOverride {
+		leaf(100, Eq, "string", "fold")
+	} else {
+		leaf(40, Eq, "string", "fold")
+	}
 	if !p.SortedSeq {
 		leaf(30, Ord, "string", "fold")
 		leaf(20, Ord, "int", "rev")
@@ -312,7 +316,7 @@ func (c *Case) genWp(r *rand.Rand, tp *Pkg) *Pkg {
 	leaf(25, Monoid, "string", "rev")
 	if tp != nil {
 		for _, d := range tp.Decls {
-			if d.Simple && chance(r, 30) {
+			if d.Simple && (chance(r, 30) || (forceOverride && d.IsStruct)) {
 				g.namedOverride(Eq, d, "first", true)
 				c.Shapes = append(c.Shapes, "override.local-instance-for-imported-type")
 			}
@@ -323,18 +327,38 @@ func (c *Case) genWp(r *rand.Rand, tp *Pkg) *Pkg {
 	for i := 0; i < nprod; i++ {
 		seq++
 		x := r.IntN(100)
+		kind := ""
 		switch {
-		case x < 26: // @fp.Value struct
+		case x < 26:
+			kind = "value"
+		case x < 42:
+			kind = "plain"
+		case x < 52:
+			kind = "newtype"
+		case x < 67:
+			kind = "generic"
+		case x < 79:
+			kind = "recursive"
+		case x < 88:
+			kind = "mutual"
+		default:
+			kind = "big"
+		}
+		if i == 0 && must != "" {
+			kind = must
+		}
+		switch kind {
+		case "value": // @fp.Value struct
 			need := g.chooseTCs(allTC, 60)
 			d := g.add(g.structDecl(fmt.Sprintf("S%d", seq), fieldCount(r), need, true, false, nil, "value"))
 			g.derive(need&d.caps(), d, g.recFlag(d))
 			c.Shapes = append(c.Shapes, "value")
-		case x < 42: // plain struct
+		case "plain": // plain struct
 			need := g.chooseTCs(allTC, 60)
 			d := g.add(g.structDecl(fmt.Sprintf("P%d", seq), fieldCount(r), need, false, chance(r, 50), nil, "plain"))
 			g.derive(need&d.caps(), d, g.recFlag(d))
 			c.Shapes = append(c.Shapes, "plain")
-		case x < 52: // named non-struct type
+		case "newtype": // named non-struct type
 			need := g.chooseTCs(allTC, 60)
 			var u *TX
 			switch r.IntN(4) {
@@ -360,7 +384,7 @@ func (c *Case) genWp(r *rand.Rand, tp *Pkg) *Pkg {
 			h.Fields = append(h.Fields, Field{map[bool]string{true: "xn", false: "Xn"}[h.Value], named(d)})
 			g.derive(need&h.caps(), h, chance(r, 40))
 			c.Shapes = append(c.Shapes, "newtype")
-		case x < 67: // generic
+		case "generic": // generic
 			need := g.chooseTCs(allTC, 60)
 			np := 2 + r.IntN(2)
 			params := []string{"A", "B", "C"}[:np]
@@ -377,7 +401,7 @@ func (c *Case) genWp(r *rand.Rand, tp *Pkg) *Pkg {
 			g.add(u)
 			g.derive(need&u.caps(), u, false)
 			c.Shapes = append(c.Shapes, "generic")
-		case x < 79: // self recursive
+		case "recursive": // self recursive
 			tcs := g.chooseTCs(allTC, 60)
 			value := chance(r, 55)
 			d := &Decl{Name: fmt.Sprintf("Node%d", seq), IsStruct: true, Value: value, SelfRec: true, Shape: "recursive"}
@@ -399,7 +423,7 @@ func (c *Case) genWp(r *rand.Rand, tp *Pkg) *Pkg {
 			g.add(d)
 			g.derive(tcs, d, chance(r, 40))
 			c.Shapes = append(c.Shapes, "recursive")
-		case x < 88: // mutually recursive pair
+		case "mutual": // mutually recursive pair
 			tcs := g.chooseTCs(allTC, 60)
 			value := chance(r, 40)
 			a := &Decl{Name: fmt.Sprintf("Ping%d", seq), IsStruct: true, Value: value, SelfRec: true, Shape: "mutual"}
@@ -526,14 +550,22 @@ func (c *Case) ensureType(r *rand.Rand, p *Pkg, tc TC, t *TX, rec bool) {
 	}
 }
 
-func genCase(r *rand.Rand) *Case {
+// genCase draws a case; must = "<production>[+imported]" forces the first production of the working
+// package (and the presence of the type's package); "override" additionally forces overriding instances.
+func genCase(r *rand.Rand, must string) *Case {
 	c := &Case{}
 	var tp *Pkg
-	if chance(r, 70) {
-		tp = c.genTp(r)
+	forceTp := strings.HasSuffix(must, "+imported")
+	must = strings.TrimSuffix(must, "+imported")
+	forceOverride := must == "override"
+	if forceOverride {
+		must = "value"
+	}
+	if chance(r, 70) || forceTp {
+		tp = c.genTp(r, forceOverride)
 		c.Pkgs = append(c.Pkgs, tp)
 	}
-	wp := c.genWp(r, tp)
+	wp := c.genWp(r, tp, must, forceOverride)
 	c.Pkgs = append(c.Pkgs, wp)
 	c.ensure(r)
 	sort.Strings(c.Shapes)
